@@ -107,7 +107,7 @@ def family():
                multisection('ta', '+', attr='ms')])
     F['S8'] = schema(
         types=[('abstract', 'aa'),
-               stype('ta', [key('ka')]),
+               stype('ta', [key('ka', attr='_a')]),
                stype('tb', [key('kb')], extends='ta', implements='aa'),
                stype('tc', [key('kc')], extends='tb')],
         items=[multisection('aa', '+', attr='xs'),
@@ -141,7 +141,8 @@ def family():
     F['S15'] = schema(
         types=[stype('ta', [multikey('+', attr='mm', dt='integer', defaults=[('da', '1'), ('da', '2'), ('db', '3')]),
                             multikey('kl', defaults=['x  y', 'a\tb']),
-                            key('ka', 'string-list', default='p q')])],
+                            # an explicit attribute name with a leading underscore (a legal identifier)
+                            key('ka', 'string-list', default='p q', attr='_ka')])],
         items=[multisection('ta', '*', attr='ms'), section('ta', 'sa')])
     # ---- thorough-only members
     F['S9'] = schema(
